@@ -2183,6 +2183,32 @@ def expand_aliases(fn: ast.FunctionDef) -> ast.FunctionDef:
                     in_loop = any(isinstance(lp, (ast.For, ast.While)) and any(u is x for u in uses for x in ast.walk(lp)) for lp in ast.walk(new))
                     if uses and all(pos(u) < first_store for u in uses) and not in_loop and pos(st) < first_store:
                         alias[nm] = v
+    # the same abbreviation taken inside a branch (`else: envs = self.effect_control_envelopes; …`), not in a loop: every use in the
+    # later statements of that branch
+    nested_drop: List[ast.stmt] = []
+    for stmts_, loops_, cond_ in _stmt_lists(new):
+        if loops_ or stmts_ is new.body:
+            continue
+        for j_, st in enumerate(stmts_):
+            if isinstance(st, ast.Assign) and len(st.targets) == 1 and isinstance(st.targets[0], ast.Name) and isinstance(st.value, ast.Attribute):
+                nm, v = st.targets[0].id, st.value
+                chain = v
+                while isinstance(chain, ast.Attribute):
+                    chain = chain.value
+                if not (isinstance(chain, ast.Name) and chain.id == "self") or cnt.get(nm) != 1 or nm in banned or nm in alias or norm(v) in stored_chains:
+                    continue
+                later_ = {id(x) for s2 in stmts_[j_ + 1:] for x in ast.walk(s2)}
+                uses_ = [n for n in ast.walk(new) if isinstance(n, ast.Name) and n.id == nm and isinstance(n.ctx, ast.Load)]
+                if uses_ and all(id(u) in later_ for u in uses_):
+                    alias[nm] = v
+                    nested_drop.append(st)
+    if nested_drop:
+        class _ND(ast.NodeTransformer):
+            def visit_Assign(self, node):
+                if any(node is d for d in nested_drop):
+                    return ast.copy_location(ast.Pass(), node)
+                return node
+        new = _ND().visit(new)
     # inside a loop body: `slots = mod.in_link_slots` (chain rooted at the loop variable, self or a parameter; the local bound once in
     # the function, used only later in the same body; the chain never re-assigned) abbreviates the chain for the rest of the iteration
     roots_ok = {"self"} | {a.arg for a in new.args.args}
@@ -4759,6 +4785,8 @@ def desugar_scan_loops(fn: ast.FunctionDef) -> ast.FunctionDef:
                 return node
             rest = iff.body[:-1]
             v = node.target.id
+            if rest and all(isinstance(s_, ast.Assign) and isinstance(s_.value, ast.Constant) and isinstance(s_.value.value, bool) for s_ in rest):
+                return node             # a flag loop (`found = True; break`): fold_flag_loops reads it, with the flag's initial value
             if any(isinstance(m, ast.Name) and m.id == v for s in rest for m in ast.walk(s)):
                 return node
             if any(isinstance(m, (ast.Break, ast.Continue)) for s in rest for m in ast.walk(s)):
